@@ -1,2 +1,74 @@
-(* Properties_C10.v -- placeholder until the theorems are in *)
-From SC Require Import ModQuery.
+(* Properties_C10.v -- C10: read-only query functions answer as their standard counterparts do, and never modify
+   their operands.  Models in ModQuery.v (tied to the C sources by the correspondence check on every run). *)
+From Coq Require Import List ZArith Bool Lia.
+From SC Require Import Base Wp Cfg Comb CombProofs ModQuery ProofsTs ProofsQuery.
+Import ListNotations.
+Local Open Scope Z_scope.
+
+(* "they never modify their operands": after any call -- valid or not, whatever the arguments and the memory -- every
+   byte outside the result cell is what it was *)
+Definition unmodified {A} (p : prog A) (cell : Z -> Prop) : Prop := forall m x, ~ cell x -> snd (fst (exec p m)) x = m x.
+Theorem C10_operands_never_modified : forall c dest dmax src slen ch r db sb,
+  unmodified (strcmp_s c dest dmax src r db sb) (ext r 4) /\
+  unmodified (strcasecmp_s c dest dmax src r db) (ext r 4) /\
+  unmodified (memcmp_s c dest dmax src slen r db sb) (ext r 4) /\
+  unmodified (strchr_s c dest dmax ch r db) (ext r 8) /\
+  unmodified (strrchr_s c dest dmax ch r db) (ext r 8) /\
+  unmodified (memchr_s c dest dmax ch r db) (ext r 8) /\
+  unmodified (memrchr_s c dest dmax ch r db) (ext r 8) /\
+  unmodified (strspn_s c dest dmax src slen r db sb) (ext r 8) /\
+  unmodified (strcspn_s c dest dmax src slen r db sb) (ext r 8) /\
+  (sb = BOS_UNKNOWN \/ slen <= sb -> unmodified (strpbrk_s c dest dmax src slen r db sb) (ext r 8)) /\
+  unmodified (strprefix_s c dest dmax src db) nowhere /\
+  unmodified (strfirstdiff_s c dest dmax src r db) (ext r 8) /\
+  unmodified (strfirstsame_s c dest dmax src r db) (ext r 8) /\
+  unmodified (wcsnlen_s c dest dmax db) nowhere.
+Proof.
+  intros. unfold unmodified.
+  repeat match goal with |- _ /\ _ => split end.
+  - intros m x Hx; exact (exec_frame _ _ m (strcmp_s_writes _ _ _ _ _ _ _) x Hx).
+  - intros m x Hx; exact (exec_frame _ _ m (strcasecmp_s_writes _ _ _ _ _ _) x Hx).
+  - intros m x Hx; exact (exec_frame _ _ m (memcmp_s_writes _ _ _ _ _ _ _ _) x Hx).
+  - intros m x Hx; exact (exec_frame _ _ m (strchr_s_writes _ _ _ _ _ _) x Hx).
+  - intros m x Hx; exact (exec_frame _ _ m (strrchr_s_writes _ _ _ _ _ _) x Hx).
+  - intros m x Hx; exact (exec_frame _ _ m (memchr_s_writes _ _ _ _ _ _) x Hx).
+  - intros m x Hx; exact (exec_frame _ _ m (memrchr_core_writes _ _ _ _ _ _) x Hx).
+  - intros m x Hx; exact (exec_frame _ _ m (strspn_s_writes _ _ _ _ _ _ _ _) x Hx).
+  - intros m x Hx; exact (exec_frame _ _ m (strcspn_s_writes _ _ _ _ _ _ _ _) x Hx).
+  - intros Hsb m x Hx; exact (exec_frame _ _ m (strpbrk_s_writes _ _ _ _ _ _ _ _ Hsb) x Hx).
+  - intros m x Hx; exact (exec_frame _ _ m (strprefix_s_writes _ _ _ _ _) x Hx).
+  - intros m x Hx; exact (exec_frame _ _ m (strfirst_s_writes false _ _ _ _ _ _) x Hx).
+  - intros m x Hx; exact (exec_frame _ _ m (strfirst_s_writes true _ _ _ _ _ _) x Hx).
+  - intros m x Hx; exact (exec_frame _ _ m (wcsnlen_s_writes _ _ _ _) x Hx).
+Qed.
+Print Assumptions C10_operands_never_modified.
+(* strpbrk_s with a known, too small object size of src reports through handle_str_bos_overflow(dest, destbos): dest IS cleared there *)
+Theorem C10_strpbrk_s_clears_dest_refuted : exists c dest dmax src slen r db sb m x,
+  ~ ext r 8 x /\ snd (fst (exec (strpbrk_s c dest dmax src slen r db sb) m)) x <> m x.
+Proof.
+  exists cfg_default, 1000, 4, 2000, 8, 3000, 4, 2, (fun a => if (1000 <=? a) && (a <? 1004) then 97 else 0), 1000.
+  split; [unfold ext; lia|]. vm_compute. discriminate.
+Qed.
+(* memcmp_s on valid operands: EOK and the sign of the first differing byte pair compared as unsigned chars, i.e. memcmp over slen bytes *)
+Theorem C10_memcmp_s_is_memcmp : forall c dest dmax src slen diff m, wf_mem m ->
+  diff <> 0 -> dest <> 0 -> src <> 0 -> 0 < slen <= dmax -> dmax <= rmax_mem c ->
+  (forall i, 0 <= i < slen -> ~ ext diff 4 (dest + i) /\ ~ ext diff 4 (src + i)) ->
+  wp (memcmp_s c dest dmax src slen diff BOS_UNKNOWN BOS_UNKNOWN) m (fun r m' =>
+     r = EOK /\ load m' 4 diff = i32 (first_diff_sign (Z.to_nat slen) m dest src)).
+Proof. exact memcmp_s_spec. Qed.
+Print Assumptions C10_memcmp_s_is_memcmp.
+(* memchr_s on valid operands: the position memchr finds among the first dmax bytes, or ESNOTFND and NULL *)
+Theorem C10_memchr_s_is_memchr : forall c dest dmax ch resultp m, wf_mem m ->
+  resultp <> 0 -> dest <> 0 -> 0 < dmax <= rmax_mem c -> 0 <= ch <= 255 ->
+  (forall i, 0 <= i < dmax -> ~ ext resultp 8 (dest + i)) -> 0 < dest -> dest + dmax <= 18446744073709551616 ->
+  wp (memchr_s c dest dmax ch resultp BOS_UNKNOWN) m (fun r m' =>
+     let f := first_byte (Z.to_nat dmax) m dest ch in
+     load m' 8 resultp = f /\ r = (if f =? 0 then ESNOTFND else EOK)).
+Proof. exact memchr_s_spec. Qed.
+Print Assumptions C10_memchr_s_is_memchr.
+(* non-vacuity: a concrete valid call *)
+Example C10_memcmp_example :
+  let m := fun a => if a =? 1000 then 97 else if a =? 1001 then 200 else if a =? 2000 then 97 else if a =? 2001 then 98 else 0 in
+  let '(r, m', _) := exec (memcmp_s cfg_default 1000 2 2000 2 3000 BOS_UNKNOWN BOS_UNKNOWN) m in
+  r = EOK /\ load m' 4 3000 = 1.
+Proof. vm_compute. split; reflexivity. Qed.
